@@ -10,8 +10,9 @@ every apply/apply_transposed overload of every LAFEM matrix container):
   clause 3  E7.exit-defines-r / E7.early-out / E7.alpha-guard
                                  every exit defines r, early-outs have the form of their arity and a
                                  zero-product condition, kernels dividing by alpha are never reached with alpha=0
-  clause 6  C6.inputs-const / C6.view-alias / C6.kernel-const
+  clause 6  C6.inputs-const / C6.view-alias / C6.kernel-const / C6.early-out-copy (early-outs copy y by value, never re-seat r onto y)
   clause 7  E4.parity / E4.matvec / E4.blocks / E4.view-perspective   (meta matrices)
+            E4.view-nonempty     positivity precondition of the range-view constructor at its call sites (empty sub-blocks)
   clause 4  E2.kernel-*          light index-kind rules on the *_generic kernels
   aliasing  E5.alias-safe        r may alias y: no read of y after a write to r unless r != y was tested (CFG, param-atom path sensitive)
 
@@ -632,6 +633,60 @@ def resolve_generic(bydecl, call):
     return out or None
 
 
+def transfer_semantics(bydecl, call, argi, depth=0):
+    """how the member call `call` transfers its argument #argi into *this, decided on the resolved callee body:
+    {'shares'}: a pointer obtained from the source is stored in this->_elements (r is re-seated onto the source's
+    buffer); {'value'}: MemoryPool::copy/convert from the source's arrays into this->_elements; transitive through
+    members called on *this with the same source.  Empty set: undecided."""
+    callee = bydecl.get(call.get("cdecl"))
+    if callee is None or depth > 4 or argi >= len(callee.params):
+        return set()
+    src = callee.params[argi]["d"]
+
+    def mentions_src(n):
+        return any(x.get("k") == "Ref" and x.get("d") == src for x in walk(n))
+
+    def own_elements(n):
+        return any(x.get("k") == "Member" and x.get("n") == "_elements" and (x.get("b") is None or x["b"].get("k") == "This") for x in walk(n))
+    out = set()
+    for n in callee.nodes():
+        k = n.get("k")
+        if k == "MCall":
+            o = n.get("obj")
+            if o is not None and o.get("k") == "Member" and o.get("n") == "_elements" and (o.get("b") is None or o["b"].get("k") == "This") \
+                    and n.get("n") in ("push_back", "emplace_back", "assign", "insert") and any(mentions_src(a) for a in n.get("a", [])):
+                out.add("shares")
+            elif (o is None or o.get("k") == "This") and n.get("cdecl") != call.get("cdecl"):
+                for i, a in enumerate(n.get("a", [])):
+                    if a.get("k") == "Ref" and a.get("d") == src:
+                        out |= transfer_semantics(bydecl, n, i, depth + 1)
+        elif k == "OpCall" and n.get("op") == "=" and n.get("a") and own_elements(n["a"][0]) and len(n["a"]) > 1 and mentions_src(n["a"][1]):
+            out.add("shares")
+        elif k == "Call" and re.search(r"MemoryPool::(copy|convert)$", n.get("callee", "")):
+            a = n.get("a", [])
+            if len(a) >= 2 and own_elements(a[0]) and not mentions_src(a[0]) and mentions_src(a[1]):
+                out.add("value")
+    return out
+
+
+def positive_preconditions(callee):
+    """parameter indices k for which the callee itself asserts  param_k > 0  (XASSERT at the top level of its body)"""
+    out = {}
+    if callee is None:
+        return None
+    pidx = {p["d"]: i for i, p in enumerate(callee.params)}
+    for n in callee.nodes():
+        if n.get("k") == "Call" and n.get("callee") == "FEAT::assertion" and n.get("a"):
+            e = n["a"][0]
+            if e.get("k") == "Bin" and e.get("op") in (">", "!="):
+                l, r = e["lhs"], e["rhs"]
+                while r.get("k") in ("Cast", "Construct", "TempObj") and (r.get("e") is not None or len(r.get("a", [])) == 1):
+                    r = r.get("e") if r.get("e") is not None else r["a"][0]
+                if l.get("k") == "Ref" and l.get("d") in pidx and r.get("k") == "Int" and str(r.get("v")) == "0":
+                    out[pidx[l["d"]]] = render(e)
+    return out
+
+
 def rule_e7(ck, agg, f, fi, bydecl):
     ar = arity(f)
     inst = f.cls.replace("FEAT::LAFEM::", "")
@@ -715,6 +770,15 @@ def rule_e7(ck, agg, f, fi, bydecl):
         if any(a is None for a in atoms):
             ck.incomplete("E7.early-out", "%s: unrecognised early-out condition '%s' (line %s)" % (key, render(ifn["c"])[:120], ifn.get("l")))
             continue
+        if ar == 4:
+            sem = transfer_semantics(bydecl, n, 0)
+            if not sem:
+                ck.incomplete("C6.early-out-copy", "%s: cannot decide how '%s' transfers y into r (callee body of %s not resolved)" % (key, render(n)[:60], n.get("cfull", "?")))
+            else:
+                agg.add("C6.early-out-copy", ekey, "shares" not in sem,
+                        ("early-out '%s' resolves to %s, which stores y's element pointer in r (shallow convert): r is re-seated onto the buffer of the input operand y, so any later "
+                         "write to r modifies y and r no longer owns its storage" % (render(n)[:50], (n.get("cfull") or "?").replace("FEAT::LAFEM::", ""))) if "shares" in sem else
+                        "r receives the values of y by MemoryPool::copy into its own array (%s)" % (n.get("cfull") or "?").replace("FEAT::LAFEM::", "")[:90], f.file, n.get("l"), inst=inst)
         wrong = [a[1] for a in atoms if a[0] == "wrong"]
         agg.add("E7.early-out", ekey, not wrong,
                 ("early-out %s taken under '%s', which does not imply a zero product" % (want, " || ".join(wrong))) if wrong else
@@ -972,7 +1036,7 @@ def view_matches(struct, v, side, idx, param):
     return is_ext(v[3], 0)
 
 
-def rule_e4(ck, agg, f, fi, persp_guards):
+def rule_e4(ck, agg, f, fi, persp_guards, bydecl):
     t = tmpl(f.cls)
     struct = STRUCT[t]
     var = variant(f.cls)
@@ -1067,6 +1131,46 @@ def rule_e4(ck, agg, f, fi, persp_guards):
     agg.add("E4.blocks", key, not miss and not dup,
             ("block(s) %s never applied" % miss if miss else "") + (" block(s) %s applied more than once" % dup if dup else "") if (miss or dup) else
             "each of %s applied exactly once" % sorted(blocks), f.file, f.line, inst=inst)
+    # callee precondition of the range-view constructor: DenseVector(dv, size, offset) asserts size > 0
+    if flat:
+        unmet, nviews = [], 0
+        for d, v in fi.vars.items():
+            vo = fi.view_of({"k": "Ref", "dk": "local", "d": d})
+            if vo is None:
+                continue
+            nviews += 1
+            init = v["init"]
+            pre = positive_preconditions(bydecl.get(init.get("cdecl")))
+            if pre is None:
+                ck.incomplete("E4.view-nonempty", "%s: body of the range-view constructor not in the facts" % key)
+                continue
+            for k, txt in pre.items():
+                if k >= len(init.get("a", [])):
+                    continue
+                arg = init["a"][k]
+                r = fi.role(arg)
+                if r[0] == "const" and r[1] > 0:
+                    continue
+                e = extent_nf(fi, arg)
+                # established at the call site: an XASSERT / enclosing if on the same extent being non-zero
+                want = render(fi.resolve(arg))
+                est = False
+                for c in f.calls():
+                    if c.get("k") == "Call" and c.get("callee") == "FEAT::assertion" and c.get("a") and c["a"][0].get("k") == "Bin" and c["a"][0].get("op") in (">", "!=") \
+                            and render(fi.resolve(c["a"][0]["lhs"])) == want and fi.role(c["a"][0]["rhs"]) == ("const", 0.0):
+                        est = True
+                for ifn, br in fi.enclosing_ifs(fi.parent.get(id(v), v)):
+                    cnd = fi.resolve(ifn["c"])
+                    if br == "then" and cnd.get("k") == "Bin" and cnd.get("op") in (">", "!=") and render(fi.resolve(cnd["lhs"])) == want and fi.role(cnd["rhs"]) == ("const", 0.0):
+                        est = True
+                if not est:
+                    unmet.append("%s(%s, %s, ...): the constructor asserts '%s' but %s may be 0" % (v["n"], render(init["a"][0]), render(arg), txt,
+                                                                                                  ("%s().%s()" % (e[1], e[2])) if e and e[0] == "ext" else render(arg)))
+        if nviews:
+            agg.add("E4.view-nonempty", key, not unmet,
+                    ("range view(s) of a flat operand are built for every block without regard to its extent: %s — a sub-matrix with 0 rows/columns (empty matrices are admissible) "
+                     "aborts in DenseVector(dv,size,offset) although the typed overload handles it" % "; ".join(unmet[:3])) if unmet else
+                    "%d range view(s): every positivity precondition of the view constructor is established at the call site" % nviews, f.file, f.line, inst=inst)
     # perspective of flat views and guards
     if flat and var != "[1]" and t != "PowerFullMatrix":
         native = []
@@ -1711,6 +1815,10 @@ def run(tier):
             "zero-product conditions (used_elements()==0, rows()/columns()==0, |alpha|<eps)", 32)
     ck.rule("E7.alpha-guard", "a kernel that divides by a (transposed CSR/CSCR/BCSR kernels compute b/a) is unreachable when |alpha| < eps (alpha = 0 would give inf/NaN)", 7)
     ck.rule("C6.inputs-const", "every apply* is a const member taking x and y as const references and contains no cast that removes constness (inputs are never modified)", 132)
+    ck.rule("C6.early-out-copy", "a 4-operand early-out defines r by a VALUE copy of y (MemoryPool::copy into r's own array), never by an operation that stores y's element pointer in r "
+            "(shallow convert/assign): decided on the resolved callee body (admissible input: alpha = 0 or an entry-free matrix, followed by any write to r — y must stay unmodified)", 19)
+    ck.rule("E4.view-nonempty", "the range-view constructor DenseVector(dv,size,offset) asserts size > 0; at every call site in a flat apply* overload that precondition is established "
+            "(constant, XASSERT or enclosing if on the same extent) — rows()/columns() of a sub-block may be 0 (admissible input: meta matrix with an empty sub-block)", 20)
     ck.rule("C6.view-alias", "range views DenseVector(x|y, n, off) alias the input through a const_cast in the constructor: they only occur in const callee positions", 18)
     ck.rule("C6.kernel-const", "in every Arch::Apply kernel/wrapper only the first pointer (r) is writable and no cast removes constness", 21)
     ck.rule("E4.parity", "a meta matrix forwards apply to apply and apply_transposed to apply_transposed on every block (wrong for every non-symmetric block)", 152)
@@ -1732,7 +1840,7 @@ def run(tier):
     drvdir = os.path.join(featlib.VERIF, "tu") + "/c01_"
     extra = ("-DC01_THOROUGH",) if tier == "thorough" else ()
     files = featlib.repo_path(LAFEM) + "|" + drvdir
-    facts = featlib.extract(DRIVER, files=files, names=r"[Aa]pply|^c01_", extra=extra)
+    facts = featlib.extract(DRIVER, files=files, names=r"[Aa]pply|^c01_|::(copy|convert|assign|_copy_content)$|::DenseVector<[^:]*>::DenseVector$", extra=extra)
     ck.tu(facts)
     pfacts = featlib.extract(DRIVER, files=featlib.repo_path(LAFEM), names=r"::apply(_transposed)?$", patterns=True, cfg=False, extra=extra)
     ck.tu(pfacts)
@@ -1761,7 +1869,7 @@ def run(tier):
             nmeta += 1
             if any(True for _ in arch_calls(f)):
                 ck.incomplete("E4.matvec", "%s: meta container calls an Arch kernel directly" % fkey(f))
-            rule_e4(ck, agg, f, fi, pg)
+            rule_e4(ck, agg, f, fi, pg, bydecl)
         else:
             nsc += 1
             if not any(True for _ in arch_calls(f)):
